@@ -298,6 +298,10 @@ def plan_C11(res, binary, hooked, tier, seed):
 def plan_C14(res, binary, hooked, tier, seed):
     mc = run_tlc("MC_RawReuse", "MC_RawReuse.cfg", "C14_mc", workers=8, timeout=600, coverage=False)
     res.add_tlc(mc, "all histories of decompress (leaving any used state) / reset(keep | size) up to 4 operations on both raw decoders: ResetIsFresh; first chunk of a well-formed LZMA2 stream on a used object: WellFormedStartIsFresh")
+    # the same two invariants for ANY number of operations ("for any number of reuse cycles"): TLAPS, inductive invariant
+    tl = run_tlaps("RawReuse_proof", "C14")
+    res.notes["tlaps"] = dict(tl, what="SpecU => [](ResetIsFresh /\\ WellFormedStartIsFresh) with no bound on the number of operations (MC_RawReuse checks depth 4)")
+    log("TLAPS RawReuse_proof: %s" % tl.get("status"))
     trace = os.path.join(WORK, "trace_C14.ndjson")
     rep = run_harness(binary, ["reuse", "--property", "C14", "--seed", seed, "--histories", tq(tier, 80, 150000), "--trace", trace], "C14_ru")
     res.add_harness(rep, "seeded histories on real LzmaDecoder / Lzma2Decoder objects (valid, corrupt, truncated, property-changing and state-leaning streams; reset(None), reset(Some(None)), reset(Some(Some(n)))): after every reset the next decompress is also run on a new object and must agree", counts_as_traces=False)
